@@ -9,6 +9,7 @@ import (
 	"strconv"
 	"time"
 
+	"github.com/mgtv-tech/redis-GunYu/pkg/log"
 	"github.com/mgtv-tech/redis-GunYu/pkg/redis/client"
 	usync "github.com/mgtv-tech/redis-GunYu/pkg/sync"
 )
@@ -190,6 +191,7 @@ func verifNewOutput(txnMode bool, batchCount uint, fake *verifFake) *RedisOutput
 	ro.cfg.KeepaliveTicker = time.Hour
 	ro.cfg.UpdateCheckpointTicker = time.Hour
 	ro.bisyncOffset.Store(-1)
+	ro.logger = log.WithLogger("[verif] ")
 	return ro
 }
 
@@ -450,6 +452,10 @@ func verifSender(txnMode bool) {
 	fake := verifNewFake()
 	fake.tagOf = verifTagOf
 	ro := verifNewOutput(txnMode, bc, fake)
+	if verifChoose("smallBuffer", 2) == 1 {
+		// byte limit below the size of a single write: every queued write reaches the size trigger
+		ro.cfg.BatchBufferSize = 5
+	}
 	run := verifDrive(ro, st, fake, txnMode, verifParam("TICKS", 1))
 	parts := verifParam("PARTS", 15) // 1 = C01, 2 = C07, 4 = C09, 8 = C02
 	if parts&1 != 0 {
